@@ -85,6 +85,13 @@ def codeList (smax : Nat) (bodies : List Nat) (nGlo : Nat) : List (List Nat) :=
   let hdr : List (List Nat) := if overSMax smax (guessStmts bodies nGlo) then [[]] else []
   hdr ++ np.1 ++ [final]
 
+/-- number `k` of the module initialiser `INIT__k_<unit>` defined by element `i` of a code list
+of `l` elements: the loop calls `gc0GenModuleInitFun(name, false, nBrothers)` with
+`nBrothers = 1, 2, …` for the parts it closes, the last unit gets
+`gc0GenModuleInitFun(name, true, nBrothers)` = `INIT__0`, the header unit none. -/
+def initIndex (over : Bool) (l i : Nat) : Option Nat :=
+  if over then (if i = 0 then none else if i + 1 = l then some 0 else some i) else some 0
+
 /-- `emitTheC`: (file name with extension, index of the code-list element written to it), in
 the order the files are opened.  A later entry with the same name overwrites the earlier file. -/
 def fileWrites (base : List Char) (l : Nat) : List (List Char × Nat) :=
